@@ -100,6 +100,7 @@ type Ctx struct {
 	VarOrder []string
 	True  *Term
 	False *Term
+	ivals map[int]ival
 }
 
 type FunDecl struct {
@@ -277,11 +278,17 @@ func (c *Ctx) UDiv(a, b *Term) *Term {
 	if b.IsConst() && b.Val == 1 {
 		return a
 	}
+	if n := c.narrowDiv(OpUDiv, a, b); n != nil {
+		return n
+	}
 	return c.bin(OpUDiv, a, b)
 }
 func (c *Ctx) URem(a, b *Term) *Term {
 	if a.IsConst() && b.IsConst() && b.Val != 0 {
 		return c.Const(a.Val%b.Val, a.W())
+	}
+	if n := c.narrowDiv(OpURem, a, b); n != nil {
+		return n
 	}
 	return c.bin(OpURem, a, b)
 }
@@ -294,6 +301,9 @@ func (c *Ctx) SDiv(a, b *Term) *Term {
 		}
 		return c.Const(uint64(x/y), w)
 	}
+	if n := c.narrowDiv(OpSDiv, a, b); n != nil {
+		return n
+	}
 	return c.bin(OpSDiv, a, b)
 }
 func (c *Ctx) SRem(a, b *Term) *Term {
@@ -304,6 +314,9 @@ func (c *Ctx) SRem(a, b *Term) *Term {
 			return c.Const(0, w)
 		}
 		return c.Const(uint64(x%y), w)
+	}
+	if n := c.narrowDiv(OpSRem, a, b); n != nil {
+		return n
 	}
 	return c.bin(OpSRem, a, b)
 }
@@ -1097,4 +1110,188 @@ func (c *Ctx) Eval(t *Term, env map[string]uint64, memo map[int]uint64) (uint64,
 	}
 	memo[t.ID] = r
 	return r, true
+}
+
+// ---------- cheap signed interval analysis (used to narrow division / remainder circuits) ----------
+
+type ival struct {
+	lo, hi int64
+	ok     bool
+}
+
+func (c *Ctx) interval(t *Term) ival {
+	if c.ivals == nil {
+		c.ivals = map[int]ival{}
+	}
+	if v, ok := c.ivals[t.ID]; ok {
+		return v
+	}
+	r := c.interval1(t)
+	c.ivals[t.ID] = r
+	return r
+}
+
+const ivalLim = int64(1) << 60
+
+func (c *Ctx) interval1(t *Term) ival {
+	w := t.S.W
+	if w <= 0 || t.S.IsArray() {
+		return ival{}
+	}
+	full := func() ival {
+		if w >= 62 {
+			return ival{}
+		}
+		return ival{-(int64(1) << uint(w-1)), int64(1)<<uint(w-1) - 1, true}
+	}
+	fits := func(lo, hi int64) ival {
+		if lo < -ivalLim || hi > ivalLim || lo > hi {
+			return full()
+		}
+		if w < 63 {
+			mn, mx := -(int64(1) << uint(w-1)), int64(1)<<uint(w-1)-1
+			if lo < mn || hi > mx {
+				return full() // may wrap
+			}
+		}
+		return ival{lo, hi, true}
+	}
+	switch t.Op {
+	case OpConst:
+		v := sext64(t.Val, w)
+		return ival{v, v, true}
+	case OpZExt:
+		iw := t.Args[0].W()
+		if iw >= 62 {
+			return ival{}
+		}
+		a := c.interval(t.Args[0])
+		if a.ok && a.lo >= 0 {
+			return a
+		}
+		return ival{0, int64(1)<<uint(iw) - 1, true}
+	case OpSExt:
+		a := c.interval(t.Args[0])
+		if a.ok {
+			return a
+		}
+		iw := t.Args[0].W()
+		if iw >= 62 {
+			return ival{}
+		}
+		return ival{-(int64(1) << uint(iw-1)), int64(1)<<uint(iw-1) - 1, true}
+	case OpAdd:
+		a, b := c.interval(t.Args[0]), c.interval(t.Args[1])
+		if a.ok && b.ok {
+			return fits(a.lo+b.lo, a.hi+b.hi)
+		}
+	case OpSub:
+		a, b := c.interval(t.Args[0]), c.interval(t.Args[1])
+		if a.ok && b.ok {
+			return fits(a.lo-b.hi, a.hi-b.lo)
+		}
+	case OpIte:
+		a, b := c.interval(t.Args[1]), c.interval(t.Args[2])
+		if a.ok && b.ok {
+			lo, hi := a.lo, a.hi
+			if b.lo < lo {
+				lo = b.lo
+			}
+			if b.hi > hi {
+				hi = b.hi
+			}
+			return ival{lo, hi, true}
+		}
+	case OpSRem:
+		b := c.interval(t.Args[1])
+		if b.ok && b.lo == b.hi && b.lo > 0 {
+			a := c.interval(t.Args[0])
+			lo, hi := -(b.lo - 1), b.lo-1
+			if a.ok && a.lo >= 0 {
+				lo = 0
+			}
+			if a.ok && a.hi <= 0 {
+				hi = 0
+			}
+			return ival{lo, hi, true}
+		}
+	case OpURem:
+		b := c.interval(t.Args[1])
+		if b.ok && b.lo == b.hi && b.lo > 0 {
+			return ival{0, b.lo - 1, true}
+		}
+	case OpAnd:
+		for _, x := range t.Args {
+			a := c.interval(x)
+			if a.ok && a.lo >= 0 {
+				return ival{0, a.hi, true}
+			}
+		}
+	case OpLShr:
+		a := c.interval(t.Args[0])
+		if a.ok && a.lo >= 0 {
+			return ival{0, a.hi, true}
+		}
+	case OpExtract:
+		if t.Lo == 0 {
+			a := c.interval(t.Args[0])
+			if a.ok && a.lo >= 0 && w < 62 && a.hi < int64(1)<<uint(w-1) {
+				return a
+			}
+		}
+	}
+	return full()
+}
+
+func bitsFor(iv ival) int {
+	// number of bits for a signed representation of every value in iv
+	n := 2
+	for n < 64 {
+		mn, mx := -(int64(1) << uint(n-1)), int64(1)<<uint(n-1)-1
+		if iv.lo >= mn && iv.hi <= mx {
+			return n
+		}
+		n++
+	}
+	return 64
+}
+
+// narrowDiv tries to perform a signed/unsigned division-like operation at a smaller width.
+func (c *Ctx) narrowDiv(op Op, a, b *Term) *Term {
+	w := a.W()
+	if w < 16 {
+		return nil
+	}
+	ia, ib := c.interval(a), c.interval(b)
+	if !ia.ok || !ib.ok {
+		return nil
+	}
+	if (op == OpUDiv || op == OpURem) && (ia.lo < 0 || ib.lo < 0) {
+		return nil
+	}
+	k := bitsFor(ia)
+	if kb := bitsFor(ib); kb > k {
+		k = kb
+	}
+	k++ // room for -(min)
+	if k >= w-3 {
+		return nil
+	}
+	na, nb := c.Extract(a, k-1, 0), c.Extract(b, k-1, 0)
+	var r *Term
+	switch op {
+	case OpSDiv:
+		r = c.bin(OpSDiv, na, nb)
+	case OpSRem:
+		r = c.bin(OpSRem, na, nb)
+	case OpUDiv:
+		r = c.bin(OpUDiv, na, nb)
+	case OpURem:
+		r = c.bin(OpURem, na, nb)
+	}
+	// division by zero is excluded by the caller's run-time check; results fit in k bits by construction
+	if op == OpUDiv || op == OpURem {
+		return c.ZExt(r, w)
+	}
+	return c.SExt(r, w)
 }
